@@ -12,6 +12,12 @@ CHECKS = {
  "C05": ("property-based testing (rapid): reference bindings computed from the generating model, compared by denotation; metamorphic definition-order permutation",
          "Generated-input search over multi-file IDL models (include DAGs, same base names, typedef chains across files, all constant spellings). Oracle: every type/constant/base-service/include node of the resolved AST must denote what the model's pointer graph says (category, typedef flag, include of definition, constant/enum binding, include used-ness); second oracle: permuting definitions leaves all facts unchanged.",
          "Trusted: the model generator's own reference graph; include lookup order (cwd first) mirrored in how include literals are spelled."),
+ "C17": ("property-based testing (rapid): round-trip oracle parse(dump(ast)) == ast over generated IDL models with hostile literals",
+         "Generated-input search: models rendered to text, parsed and resolved by the real front end, every file dumped by dump.DumpIDL, the dumped program re-parsed and re-analysed; oracle = structural equality of the two resolved ASTs (comments and cpp_type aside, integral doubles may return as ints), dumped text must parse and pass semantic analysis, no panic.",
+         "Trusted: the front end itself (decided separately by C03/C05)."),
+ "C12": ("stateful property-based testing (rapid): generated Feed histories against an independent reference model of the assembly rules, invariants after every step",
+         "Generated histories of FileManager.Feed calls and BuildResponse compared with a reference model written from the documented rules; invariants (distinct names, every distinct file present exactly once, no marker survives, no merge) checked after every Feed.",
+         "Trusted: the reference model (about 100 lines). Placement of named patches in the documented FIXME area is not asserted."),
 }
 NOT_YET = "check not built yet (work in progress; the technique applies, see DESIGN.md)"
 
